@@ -2,14 +2,14 @@ SPECIFICATION Spec
 CONSTANTS
   NIds = 2
   Ident = FALSE
-  Dev = {}
+  Dev = {"socket-buffer-kilobytes-passed-as-bytes"}
   JitClasses = {"zero"}
-  Plan = "mrd"
+  Plan = "one"
   Kinds = {"good", "badauth", "wrongid", "wrongsrc", "reqcode"}
   MaxFlips = 1
   MaxReplies = 3
   AllowCancel = TRUE
   AllowDestroy = TRUE
   PortReuse = TRUE
-INVARIANTS ICompleteOnce INoTxAfterDone ITxBound ISlots IArmed IMatch IDelivered IFailover IQuiescent IDestroyed IMemSafe INas IBufUnits IDuration
+INVARIANTS IBufUnits
 CHECK_DEADLOCK FALSE
